@@ -35,6 +35,8 @@ class C12(scen.WorldProp):
                 "Wheatley.C12.look_to_forgets_data",
                 "Wheatley.C12.memInvariant",
                 "Wheatley.C12.memory_stays_bounded",
+                "Wheatley.C12.cfgInvariant",
+                "Wheatley.C12.configuration_never_changes",
                 "Wheatley.C12.centred_evaluation_is_the_same_fit",
                 "Wheatley.det_pos",
                 "Wheatley.regress_eq",
